@@ -1,6 +1,6 @@
 (* Property C12 — close() is final, idempotent, and leaves no worker behind.
-   Only statements here; proofs are in CacheLocal.v and CacheClose.v. *)
-From StrettoModel Require Import Base Metrics Sketch Bloom TinyLFU Policy Ttl Store Cache CacheProofs CacheLocal CacheInv CacheClose.
+   Only statements here; proofs are in CacheLocal.v, CacheClose.v and CacheCloseLive.v. *)
+From StrettoModel Require Import Base Metrics Sketch Bloom TinyLFU Policy Ttl Store Cache CacheProofs CacheLocal CacheInv CacheClose CacheCloseLive.
 Open Scope N_scope.
 
 (* Once the closed flag is set (close() publishes it first), in ANY state: insert returns false,
@@ -56,3 +56,22 @@ Theorem C12_invariant_is_inductive :
   forall c st l st' o, CloseInv st -> cstep c st l = StepOk st' o -> CloseInv st'.
 Proof. exact CloseInv_step. Qed.
 Print Assumptions C12_invariant_is_inductive.
+
+(* close() is never stranded in its handshakes (proofs in CacheCloseLive.v).  At most one client is
+   ever inside close() — every other close() returns Ok at once ... *)
+Theorem C12_at_most_one_closer :
+  forall c mc t now st a b,
+  reach c (cinit c mc t now) st -> in_close (client_of st a) = true -> in_close (client_of st b) = true -> a = b.
+Proof. exact at_most_one_closer. Qed.
+Print Assumptions C12_at_most_one_closer.
+
+(* ... and in the sync flavour, in every reachable state, the closer offering the stop in the
+   rendezvous has a live partner: the cache processor (resp. the policy worker) has not left its
+   loop, so the handshake can complete. *)
+Theorem C12_sync_close_offer_has_a_live_partner :
+  forall c mc t now st a,
+  c_async c = false -> reach c (cinit c mc t now) st ->
+  (client_of st a = KCloseStopOffered -> s_pc st <> PExited) /\
+  (client_of st a = KPolCloseStopOffered -> s_wpc st = WIdle).
+Proof. exact sync_close_offer_has_a_live_partner. Qed.
+Print Assumptions C12_sync_close_offer_has_a_live_partner.
